@@ -441,7 +441,7 @@ def behaviours(rep, prop, tier, sd):
     rep.sample({"behaviour": {"hist": [a[:2] for a in behs[0]["hist"]]}})
 
 
-def hashseeds(rep, n, sd):
+def hashseeds(rep, n, sd, prop="C01"):
     """C01: same graphs built in other processes under other PYTHONHASHSEED, shuffled keyword / dict orders"""
     gs = graphs(n, sd + 5)
     ref = None
@@ -468,7 +468,7 @@ def hashseeds(rep, n, sd):
             for i, (a, b) in enumerate(zip(ref, ids)):
                 rep.cov["evaluations"] += 1
                 if a != b:
-                    rep.violation("C01/hashseed", f"graph #{i}: identifiers differ between processes (PYTHONHASHSEED=0 vs {hs}, "
+                    rep.violation(f"{prop}/hashseed", f"graph #{i}: identifiers differ between processes (PYTHONHASHSEED=0 vs {hs}, "
                                   "shuffled construction order)", {"graph": gs[i], "hashseed": hs})
     rep.cov["hashseed_graphs"] = n
 
